@@ -122,6 +122,7 @@ package git
 //@   ensures result.Args[0] == repo.gitBin
 //@   ensures result.Args[1] == "--no-replace-objects"
 //@   ensures result.Args[2] == "-c" && result.Args[3] == "advice.graftFileDeprecated=false"
+//@   ensures forall i int :: 0 <= i && i < len(callerArgs) ==> result.Args[i+4] == callerArgs[i]
 //@   ensures len(result.Env) >= 2
 //@   ensures keyof(result.Env[len(result.Env)-2]) == catkey(keyof("GIT_DIR="), keyof(repo.gitDir))
 //@   ensures result.Env[len(result.Env)-1] == "GIT_GRAFT_FILE=/dev/null"
